@@ -23,6 +23,11 @@ func nasDispatchEval(fn *ssa.Function) ([]core.AOutcome, *core.Exec, error) {
 	ex.MaxStates = 2000
 	ex.OnCall = func(ev *core.AEvent, m *core.AMem) (core.AVal, bool) {
 		n := ev.Callee
+		if ev.Fn != nil && ev.Fn.Synthetic != "" && len(ev.Fn.Blocks) > 0 {
+			// a method expression of a promoted method ((*GmmMessage).EncodeX in a table of codecs) is a
+			// thunk that loads the embedded message and calls its method: entered, the real call is seen
+			return core.AVal{}, false
+		}
 		if strings.HasPrefix(n, pNasM+".New") {
 			return core.AVal{K: core.APtr, Path: "new:" + n[len(pNasM)+4:], NonNil: true}, true
 		}
